@@ -23,7 +23,7 @@ func init() {
 type c11Case struct {
 	Window int    `json:"window"`
 	Type   string `json:"type"`            // "" EVENT VOD
-	Style  string `json:"style"`           // rel abs query range range0 rangemix refs dirs
+	Style  string `json:"style"`           // rel abs query range range0 rangemix refs skipadv dirs
 	Start  int    `json:"start"`           // media sequence number of the first playlist
 	Events []int  `json:"events"`          // between polls: advance by k (0,1,2,3,6) or -1 = append ENDLIST
 	Audio  []int  `json:"audio,omitempty"` // a second, independently evolving rendition (multivariant entry point)
@@ -151,7 +151,37 @@ func c11Playlist(cs c11Case, st c11State, audio bool) string {
 		}
 		segs = append(segs, plSeg{URI: uri, DurNS: 1_000_000_000, ByteRange: br})
 	}
-	return writeMediaPlaylist(4, 1, st.mseq, cs.Type, "", segs, st.endlist, nil)
+	var extra []string
+	if cs.Style == "skipadv" {
+		// Playlist Delta Updates are advertised although the stream is not a Low-Latency one (no CAN-BLOCK-RELOAD, no
+		// preload hint): a client in traditional mode does not ask for them
+		extra = append(extra, "#EXT-X-SERVER-CONTROL:CAN-SKIP-UNTIL=6.00000")
+	}
+	return writeMediaPlaylist(9, 1, st.mseq, cs.Type, "", segs, st.endlist, extra)
+}
+
+// c11DeltaPlaylist is what the server answers to a request that carries _HLS_skip (style "skipadv"): the first two
+// segments replaced by EXT-X-SKIP.
+func c11DeltaPlaylist(cs c11Case, st c11State, audio bool) string {
+	full := c11Playlist(cs, st, audio)
+	if cs.Window <= 2 {
+		return full
+	}
+	lines := strings.Split(full, "\n")
+	var out []string
+	dropped := 0
+	for i := 0; i < len(lines); i++ {
+		if dropped < 2 && strings.HasPrefix(lines[i], "#EXTINF:") {
+			if dropped == 0 {
+				out = append(out, "#EXT-X-SKIP:SKIPPED-SEGMENTS=2")
+			}
+			dropped++
+			i++ // the URI line
+			continue
+		}
+		out = append(out, lines[i])
+	}
+	return strings.Join(out, "\n")
 }
 
 // c11Expect runs the integer model of one rendition: the requests it must issue (in order) and how it ends.
@@ -291,6 +321,9 @@ func c11RunCase(c *vh.Ctx, cs c11Case) (sig, msg, outcome string) {
 			srv.mu.Unlock()
 			if k >= len(states) {
 				return srvResp{Status: 404}
+			}
+			if cs.Style == "skipadv" && strings.Contains(rawQuery, "_HLS_skip=") {
+				return srvResp{Status: 200, Body: []byte(c11DeltaPlaylist(cs, states[k], audio))}
 			}
 			return srvResp{Status: 200, Body: []byte(c11Playlist(cs, states[k], audio))}
 		case name == "all.ts" || name == "allaud.ts":
@@ -443,7 +476,7 @@ func c11Groups(tier string) []c11Group {
 	var out []c11Group
 	for _, w := range []int{1, 2, 3, 4, 6, 10} {
 		for _, typ := range []string{"", "EVENT", "VOD"} {
-			for _, style := range []string{"rel", "abs", "query", "range", "range0", "rangemix", "refs"} {
+			for _, style := range []string{"rel", "abs", "query", "range", "range0", "rangemix", "refs", "skipadv"} {
 				if tier != "thorough" && style != "rel" && !(w == 4 || w == 6) {
 					continue
 				}
